@@ -143,8 +143,10 @@ def _case(draw, tier):
         split = False
     else:
         d = _only(draw, ctx, frees)
-        if per_binding and 0 not in A.cond_vars(d):
-            d = ["and", "nary", [leaf(draw, ctx, [0]), d]]      # (the condition that comes first binds x)
+        if per_binding:
+            # (the condition that comes first BINDS x on every true path: a leaf on x conjoined - a disjunction that merely
+            # mentions x may hold without binding it)
+            d = ["and", "nary", [leaf(draw, ctx, [0]), d]]
         cond = ["and", "nary", [d, fa] if combine != "d_last" else [fa, d]]
         split = combine == "top_level"
     order = list(draw(st.permutations(frees)))
